@@ -304,6 +304,61 @@ theorem for_statement_shape (isProc : Bool) (x : String) (lo : Option PExpr) (hi
           simp only [h4, Except.ok.injEq] at h
           exact ⟨iInit, st1, n2, t2, st2, lv, st3, st14, rfl, h2, h3, h4, h.symm⟩
 
+/-- **The end expression of `range()` is evaluated once, in the block in front of the loop.**
+    For every for-statement generated in a state whose current block exists: the code of the end
+    expression `hi` is appended to the block that is current *before* the loop (`st.cur`; no block has
+    been created yet), and the loop's test block (`st.nblocks`, created afterwards) receives from
+    `gen_for` exactly the phi and the conditional jump that compares the phi with the *value* `n2`
+    computed there — so assignments in the body to variables of `hi` cannot change the trip count.
+    (Tied to the real front-end by the instruction-by-instruction comparison of every generated
+    function: code for the end expression inside the test block is a model/implementation
+    disagreement.) -/
+theorem for_range_end_evaluated_before_loop (isProc : Bool) (x : String) (lo : Option PExpr) (hi : PExpr)
+    (body : PStmt) (st st' : St) (hc : st.cur < st.nblocks)
+    (h : genStmt isProc (.fors x lo hi body) st = .ok st') :
+    ∃ iInit st1 n2 t2 code n lv st3 st14 seg,
+      forPre st lo = .ok (iInit, st1) ∧ st1.cur = st.cur ∧ st1.nblocks = st.nblocks ∧
+      genExpr st1.locals hi st1.nvals = .ok (code, n2, t2, n) ∧
+      getVariable { st1 with log := st1.log ++ code.map (Event.emit st.cur), nvals := n } x (some .i64) = .ok (lv, st3) ∧
+      st3.cur = st.cur ∧ st3.nblocks = st.nblocks ∧
+      (forEnter st3 iInit n2 lv).log = st3.log ++ seg ∧
+      blockInstrs seg st.nblocks =
+        [.phi st3.nvals .i64, .cjump (.tmp st3.nvals) "<" n2 (st.nblocks + 1) (st.nblocks + 3)] ∧
+      genStmt isProc body (forEnter st3 iInit n2 lv) = .ok st14 ∧ st' = forLeave st3 st14 := by
+  obtain ⟨iInit, st1, n2, t2, st2, lv, st3, st14, h1, h2, h3, h4, h5⟩ := for_statement_shape isProc x lo hi body st st' h
+  have hpre : st1.cur = st.cur ∧ st1.nblocks = st.nblocks := by
+    cases lo with
+    | none =>
+      simp only [forPre, Except.ok.injEq, Prod.mk.injEq] at h1
+      obtain ⟨_, rfl⟩ := h1
+      exact ⟨rfl, rfl⟩
+    | some e =>
+      simp only [forPre] at h1
+      cases he : st.expr e with
+      | error er => simp [he] at h1
+      | ok r =>
+        obtain ⟨v', t', s'⟩ := r
+        simp only [he, Except.ok.injEq, Prod.mk.injEq] at h1
+        obtain ⟨_, rfl⟩ := h1
+        obtain ⟨c', n', _, rfl⟩ := expr_spec st e v' t' s' he
+        exact ⟨rfl, rfl⟩
+  obtain ⟨code, n, hg, rfl⟩ := expr_spec st1 hi n2 t2 st2 h2
+  have hvar : st3.cur = st1.cur ∧ st3.nblocks = st1.nblocks := by
+    simp only [getVariable] at h3
+    split at h3
+    · simp only [Except.ok.injEq, Prod.mk.injEq] at h3
+      obtain ⟨_, rfl⟩ := h3
+      exact ⟨rfl, rfl⟩
+    · simp only [Except.ok.injEq, Prod.mk.injEq] at h3
+      obtain ⟨_, rfl⟩ := h3
+      exact ⟨rfl, rfl⟩
+  have hcur3 : st3.cur = st.cur := by rw [hvar.1, hpre.1]
+  have hnb3 : st3.nblocks = st.nblocks := by rw [hvar.2, hpre.2]
+  refine ⟨iInit, st1, n2, t2, code, n, lv, st3, st14, _, h1, hpre.1, hpre.2, hg, by rw [← hpre.1]; exact h3,
+    hcur3, hnb3, forEnter_log st3 iInit n2 lv, ?_, h4, h5⟩
+  have hne : st.cur ≠ st.nblocks := by omega
+  simp [blockInstrs, hcur3, hnb3, hne]
+
 /-- `for i in range(n): (if i > 2: continue); s += i` followed by `return s` — the shape of the
     repaired defect -/
 def exLoop : PStmt := .seq (.assign "s" (.num 0)) (.seq
